@@ -251,13 +251,18 @@ impl PendingSubscriptionSink {
 		if success {
 			let (tx, rx) = mpsc::channel(1);
 			self.subscribers.lock().insert(self.uniq_sub.clone(), (self.inner.clone(), rx));
+			let unsubscribe = IsUnsubscribed(tx);
 			Ok(SubscriptionSink {
 				inner: self.inner,
 				method: self.method,
-				subscribers: self.subscribers,
-				uniq_sub: self.uniq_sub,
-				unsubscribe: IsUnsubscribed(tx),
-				_permit: Arc::new(self.permit),
+				uniq_sub: self.uniq_sub.clone(),
+				unsubscribe: unsubscribe.clone(),
+				_guard: Arc::new(SubscriptionSinkGuard {
+					subscribers: self.subscribers,
+					uniq_sub: self.uniq_sub,
+					unsubscribe,
+					_permit: self.permit,
+				}),
 			})
 		} else {
 			panic!(
@@ -299,14 +304,35 @@ pub struct SubscriptionSink {
 	inner: MethodSink,
 	/// MethodCallback.
 	method: &'static str,
-	/// Shared Mutex of subscriptions for this method.
-	subscribers: Subscribers,
 	/// Unique subscription.
 	uniq_sub: SubscriptionKey,
 	/// A future to that fires once the unsubscribe method has been called.
 	unsubscribe: IsUnsubscribed,
+	/// Shared by all clones of the sink: ends the subscription once the last of them is dropped.
+	_guard: Arc<SubscriptionSinkGuard>,
+}
+
+/// What all clones of a [`SubscriptionSink`] hold in common. The subscription stays active as long as
+/// one clone is alive; when the last one goes, the entry in the subscriber table and the subscription
+/// permit are released.
+#[derive(Debug)]
+struct SubscriptionSinkGuard {
+	/// Shared Mutex of subscriptions for this method.
+	subscribers: Subscribers,
+	/// Unique subscription.
+	uniq_sub: SubscriptionKey,
+	/// Whether the subscription has been unsubscribed already.
+	unsubscribe: IsUnsubscribed,
 	/// Subscription permit
-	_permit: Arc<SubscriptionPermit>,
+	_permit: SubscriptionPermit,
+}
+
+impl Drop for SubscriptionSinkGuard {
+	fn drop(&mut self) {
+		if !self.unsubscribe.is_unsubscribed() {
+			self.subscribers.lock().remove(&self.uniq_sub);
+		}
+	}
 }
 
 impl SubscriptionSink {
@@ -408,14 +434,6 @@ impl SubscriptionSink {
 
 	fn is_active_subscription(&self) -> bool {
 		!self.unsubscribe.is_unsubscribed()
-	}
-}
-
-impl Drop for SubscriptionSink {
-	fn drop(&mut self) {
-		if self.is_active_subscription() {
-			self.subscribers.lock().remove(&self.uniq_sub);
-		}
 	}
 }
 
